@@ -24,7 +24,8 @@ type ConfSpec struct {
 	NotOnOrAfter *int64 `json:"noa_ms"`          // nil: attribute absent
 	NotBefore    *int64 `json:"nb_ms,omitempty"` // non-nil: SubjectConfirmationData carries a NotBefore attribute too (schema-legal; no property gives it a meaning)
 	Address      string `json:"address,omitempty"`
-	NOAText      string `json:"noa_text,omitempty"` // non-empty: SubjectConfirmationData/@NotOnOrAfter is written as exactly this text
+	NameID       string `json:"confirmer_nameid,omitempty"` // non-empty: the SubjectConfirmation names the entity expected to confirm (saml-core 2.4.1.1) - not the subject
+	NOAText      string `json:"noa_text,omitempty"`         // non-empty: SubjectConfirmationData/@NotOnOrAfter is written as exactly this text
 	Recipient    string `json:"recipient"`
 	InResponseTo string `json:"irt"`
 }
@@ -201,6 +202,9 @@ func (a *AsrtSpec) toAssertion(t0 time.Time) *saml.Assertion {
 				m = bearer
 			}
 			sc := saml.SubjectConfirmation{Method: m}
+			if c.NameID != "" {
+				sc.NameID = &saml.NameID{Format: "urn:oasis:names:tc:SAML:1.1:nameid-format:unspecified", Value: c.NameID}
+			}
 			if !c.NoData {
 				d := &saml.SubjectConfirmationData{Recipient: c.Recipient, InResponseTo: c.InResponseTo}
 				if c.NotOnOrAfter != nil {
